@@ -17,6 +17,7 @@ import Pyunicorn.Lemmas.NsiWrappedArenas
 import Pyunicorn.Lemmas.NsiGJ
 import Pyunicorn.Lemmas.NsiGJ2
 import Pyunicorn.Lemmas.NsiNewmanReg
+import Pyunicorn.Lemmas.NsiArenasTotal
 import Pyunicorn.Model.NsiMeasures
 /-!
 # C02 — Node-splitting invariance of all n.s.i. measures
@@ -1773,6 +1774,133 @@ example :
       r'.getD 5 0 = r.getD 2 0 :=
   nsi_newman_wrapped_split_total compG compG_sym compG_loop compG_w 2 (1/4)
     (by decide) (by norm_num) (by norm_num) true
+
+
+/-! ## Round 5h: `arenasWrapped` is total — regularity of `1 − P_i` combined with solver completeness
+
+`arenasV` runs the same `Circuit.inverse` (C18's Gauss–Jordan) as `newmanT`; round 5f's
+`inverse_isSome_iff` (it returns iff the block is regular), round 5e's `inverse_right` (what it
+returns is a right inverse, so `R · P` solves `(1 − P) V = P` and `arenasAll`'s flag is `true`) and
+round 5's `arenas_systems_regular` (Lemmas/NsiArenasTotal.lean). -/
+
+/-- **the eliminations of `nsi_arenas_betweenness` return and their results pass the exact check**:
+on a connected undirected network with positive node weights, for both stopping rules and both
+values of `exclude_neighbors`, `arenasAll` returns `some (l, true)` — every `arenasV` is `some`
+(`ArenasRegular` is regularity of the block handed to `Circuit.inverse`; completeness
+`inverse_isSome_iff`) and every `R · P` solves its system (`inverse_right`) -/
+theorem arenas_all_total (H : Gr) (hsym : ∀ i j, H.adj i j = H.adj j i)
+    (hw : ∀ k, k < H.n → 0 < H.w k) (hconn : Connected H) (twin excl : Bool) :
+    (∀ i, i < H.n → (arenasV H (Circuit.toFun (Circuit.ofFun H.n (arenasSigOf twin H))) i).isSome
+      = true) ∧
+    ∃ l, arenasCompF twin excl H = some l := by
+  constructor
+  · intro i hi
+    apply arenasV_isSome
+    apply arenas_regular H hw hconn _ i hi
+    · rw [toFun_ofFun H.n _ i i hi hi]
+      unfold arenasSigOf
+      cases twin
+      · rfl
+      · exact twinness_diag H hw (aplus_symm H hsym) i hi
+    · intro r hr _
+      rw [toFun_ofFun H.n _ i r hi hr]
+      unfold arenasSigOf
+      cases twin
+      · exact ⟨by norm_num, le_refl _⟩
+      · exact twinness_bounds H hw i r hi
+  · cases h : arenasCompF twin excl H with
+    | none => exact absurd h (arenasCompF_ne_none H hsym hw hconn twin excl)
+    | some l => exact ⟨l, rfl⟩
+
+/-- **the modelled wrapper of `nsi_arenas_betweenness` is total**: on every undirected network with
+positive node weights (connected or not), for both stopping rules and both values of
+`exclude_neighbors`, `arenasWrapped` returns an array — every component's sub-network is connected
+(`component_subnetwork_connected`), so its systems `1 − P_i` are regular
+(`arenas_systems_regular`), so C18's Gauss–Jordan returns and its results are verified
+(`arenas_all_total`) -/
+theorem arenas_wrapped_total (G : Gr) (hsym : ∀ i j, G.adj i j = G.adj j i)
+    (hw : ∀ k, k < G.n → 0 < G.w k) (twin excl : Bool) :
+    ∃ r, arenasWrapped G twin excl = some r := by
+  cases h : arenasWrapped G twin excl with
+  | none => exact absurd h (arenasWrapped_ne_none G hsym hw twin excl)
+  | some r => exact ⟨r, rfl⟩
+
+/-- **Node-splitting invariance of `arenasWrapped` with the existence of both arrays as a
+conclusion**: on every undirected loop-free network with positive node weights, every node `v`,
+every `0 < p < 1`, all four argument patterns, the modelled wrapper returns an array `r` on the
+network and an array `r'` on its split copy (`arenas_wrapped_total`), `r'` has one entry more,
+agrees with `r` on the old nodes, and the twin carries `v`'s entry (`nsi_arenas_wrapped_split`). -/
+theorem nsi_arenas_wrapped_split_total (G : Gr) (hsym : ∀ i j, G.adj i j = G.adj j i)
+    (hloop : ∀ i, G.adj i i = false) (hw : ∀ k, k < G.n → 0 < G.w k) (v : Nat) (p : Rat)
+    (hv : v < G.n) (hp0 : 0 < p) (hp1 : p < 1) (twin excl : Bool) :
+    ∃ r r', arenasWrapped G twin excl = some r ∧
+      arenasWrapped (split G v p) twin excl = some r' ∧
+      r'.length = r.length + 1 ∧
+      (∀ a, a < G.n → r'.getD a 0 = r.getD a 0) ∧ r'.getD G.n 0 = r.getD v 0 := by
+  obtain ⟨r, hr⟩ := arenas_wrapped_total G hsym hw twin excl
+  obtain ⟨r', hr'⟩ := arenas_wrapped_total (split G v p) (split_adj_symm G v p hsym)
+    (split_weights_pos G v p hv hp0 hp1 hw) twin excl
+  exact ⟨r, r', hr, hr',
+    nsi_arenas_wrapped_split G hsym hloop hw v p hv hp0 hp1 twin excl r r' hr hr'⟩
+
+/-- path 0–1–2 whose middle node has weight zero: outside the property's domain; the system of
+target 0 has the singular row `(0, −w₁/k⋆₂, 1 − w₂/k⋆₂) = (0, 0, 0)` -/
+def zeroMidG : Gr :=
+  { n := 3, adj := fun i j => (i, j) ∈ [(0, 1), (1, 0), (1, 2), (2, 1)],
+    w := fun k => [1, 0, 1].getD k 0, la := fun _ _ _ => 0, grp := fun _ _ => false,
+    dist := fun _ _ => none }
+
+private theorem compG2_sym : ∀ i j, compG2.adj i j = compG2.adj j i := by
+  intro i j
+  rw [Bool.eq_iff_iff]
+  simp only [compG2, decide_eq_true_eq, List.mem_cons, Prod.mk.injEq, List.mem_nil_iff, or_false]
+  omega
+
+private theorem compG2_loop : ∀ i, compG2.adj i i = false := by
+  intro i
+  simp only [compG2, decide_eq_false_iff_not, List.mem_cons, Prod.mk.injEq, List.mem_nil_iff,
+    or_false]
+  omega
+
+private theorem compG2_w : ∀ k, k < compG2.n → 0 < compG2.w k := by decide +kernel
+
+/-- non-vacuity (`arenas_all_total`, `arenas_wrapped_total`): the hypothesis "positive weights"
+cannot be dropped — on `zeroMidG` (connected, one weight 0) the wrapper fails for both stopping
+rules — and the conclusion is not trivial: on `compG2` (path 0–1–2–3 | link 4–5) and on its split
+copy the arrays that `arenas_wrapped_total` promises have lengths 6 and 7 and a non-zero entry -/
+example :
+    (arenasWrapped zeroMidG false true).isNone = true ∧
+    (arenasWrapped zeroMidG true true).isNone = true ∧
+    (∃ r, arenasWrapped compG2 false true = some r ∧ r.length = 6 ∧ r.getD 1 0 ≠ 0) ∧
+    (∃ r', arenasWrapped (split compG2 1 (1/4)) true false = some r' ∧ r'.length = 7) := by
+  refine ⟨by decide +kernel, by decide +kernel, ?_, ?_⟩
+  · obtain ⟨r, hr⟩ := arenas_wrapped_total compG2 compG2_sym compG2_w false true
+    refine ⟨r, hr, ?_, ?_⟩
+    · have h : ((arenasWrapped compG2 false true).map List.length) = some 6 := by decide +kernel
+      rw [hr] at h
+      simpa using h
+    · have h : ((arenasWrapped compG2 false true).getD []).getD 1 0 ≠ 0 := by decide +kernel
+      rw [hr] at h
+      simpa using h
+  · obtain ⟨r', hr'⟩ := arenas_wrapped_total (split compG2 1 (1/4))
+      (split_adj_symm compG2 1 (1/4) compG2_sym)
+      (split_weights_pos compG2 1 (1/4) (by decide) (by norm_num) (by norm_num) compG2_w) true false
+    refine ⟨r', hr', ?_⟩
+    have h : ((arenasWrapped (split compG2 1 (1/4)) true false).map List.length) = some 7 := by
+      decide +kernel
+    rw [hr'] at h
+    simpa using h
+
+/-- non-vacuity (`nsi_arenas_wrapped_split_total`): instantiated on `compG2`, node 1, `p = 1/4`,
+`stopping_mode="twinness"`, `exclude_neighbors=False`; the promised arrays are the computed ones,
+and the twin (index 6) carries node 1's value -/
+example :
+    ∃ r r', arenasWrapped compG2 true false = some r ∧
+      arenasWrapped (split compG2 1 (1/4)) true false = some r' ∧
+      r'.length = r.length + 1 ∧ (∀ a, a < 6 → r'.getD a 0 = r.getD a 0) ∧
+      r'.getD 6 0 = r.getD 1 0 :=
+  nsi_arenas_wrapped_split_total compG2 compG2_sym compG2_loop compG2_w 1 (1/4)
+    (by decide) (by norm_num) (by norm_num) true false
 
 
 end Pyunicorn.Nsi
